@@ -90,6 +90,23 @@ macro_rules! impl_policy {
                         }
                     });
 
+                    #[cfg(transparencies_stretto_verif)]
+                    if crate::verif::evict_recording() {
+                        crate::verif::observe_evict_round(crate::verif::EvictRound {
+                            key,
+                            cost,
+                            inc_hits,
+                            sample: sample
+                                .iter()
+                                .map(|p| (p.key, p.cost, inner.admit.estimate(p.key)))
+                                .collect(),
+                            min_key,
+                            min_hits,
+                            room,
+                            residents: inner.costs.key_costs.len(),
+                        });
+                    }
+
                     // If the incoming item isn't worth keeping in the policy, reject.
                     if inc_hits < min_hits {
                         self.metrics.add(MetricType::RejectSets, key, 1);
@@ -182,6 +199,8 @@ mod sync;
 #[cfg(feature = "sync")]
 #[cfg_attr(docsrs, doc(cfg(feature = "sync")))]
 pub(crate) use sync::LFUPolicy;
+#[cfg(all(feature = "sync", transparencies_stretto_verif))]
+pub(crate) use sync::PolicyProcessor;
 
 #[cfg(feature = "async")]
 #[cfg_attr(docsrs, doc(cfg(feature = "async")))]
@@ -189,6 +208,8 @@ mod r#async;
 #[cfg(feature = "async")]
 #[cfg_attr(docsrs, doc(cfg(feature = "async")))]
 pub(crate) use r#async::AsyncLFUPolicy;
+#[cfg(all(feature = "async", transparencies_stretto_verif))]
+pub(crate) use r#async::PolicyProcessor as AsyncPolicyProcessor;
 
 pub(crate) struct PolicyInner<S = RandomState> {
     admit: TinyLFU,
@@ -230,6 +251,34 @@ impl<S: BuildHasher + Clone + 'static> PolicyInner<S> {
             costs: SampledLFU::with_hasher(max_cost, hasher),
         };
         Ok(Arc::new(Mutex::new(this)))
+    }
+}
+
+#[cfg(transparencies_stretto_verif)]
+impl<S: BuildHasher + Clone + 'static> PolicyInner<S> {
+    pub(crate) fn verif_costs(&self) -> (Vec<(u64, i64)>, i64, i64) {
+        let mut v: Vec<(u64, i64)> = self.costs.key_costs.iter().map(|(k, c)| (*k, *c)).collect();
+        v.sort_unstable();
+        (v, self.costs.used, self.costs.get_max_cost())
+    }
+
+    pub(crate) fn verif_sample_order(&self) -> Vec<u64> {
+        self.costs.key_costs.keys().copied().collect()
+    }
+
+    pub(crate) fn verif_estimate(&self, k: u64) -> i64 {
+        self.admit.estimate(k)
+    }
+
+    pub(crate) fn verif_window(&self) -> (usize, usize) {
+        self.admit.verif_window()
+    }
+}
+
+#[cfg(transparencies_stretto_verif)]
+impl TinyLFU {
+    pub(crate) fn verif_window(&self) -> (usize, usize) {
+        (self.w, self.samples)
     }
 }
 
